@@ -1102,6 +1102,40 @@ package gomatrixserverlib
 //@   ensures C03.table.org.matrix.hydra.11.newEventFromTrustedJSONFunc: roomVersionMeta["org.matrix.hydra.11"].(RoomVersionImpl).newEventFromTrustedJSONFunc == newEventFromTrustedJSONV3
 //@   ensures table.org.matrix.hydra.11.newEventFromTrustedJSONWithEventIDFunc: roomVersionMeta["org.matrix.hydra.11"].(RoomVersionImpl).newEventFromTrustedJSONWithEventIDFunc == newEventFromTrustedJSONWithEventIDV3
 //@   ensures C03.table.org.matrix.hydra.11.newEventFromTrustedJSONWithEventIDFunc: roomVersionMeta["org.matrix.hydra.11"].(RoomVersionImpl).newEventFromTrustedJSONWithEventIDFunc == newEventFromTrustedJSONWithEventIDV3
+// content keep-lists of the five redaction algorithms (transcribed from the room version specifications;
+// /verif/tools/c05_content_contract.generated.txt)
+//@   ensures C05.content.V1.types: forall ty string :: (ty in unredactableContentFieldsV1) <==> (ty == "m.room.aliases" || ty == "m.room.create" || ty == "m.room.history_visibility" || ty == "m.room.join_rules" || ty == "m.room.member" || ty == "m.room.power_levels")
+//@   ensures C05.content.V1.aliases: len(get(unredactableContentFieldsV1, "m.room.aliases")) > 0 && (forall k string :: kept(unredactableContentFieldsV1, "m.room.aliases", k) <==> (k == "aliases"))
+//@   ensures C05.content.V1.create: len(get(unredactableContentFieldsV1, "m.room.create")) > 0 && (forall k string :: kept(unredactableContentFieldsV1, "m.room.create", k) <==> (k == "creator"))
+//@   ensures C05.content.V1.history_visibility: len(get(unredactableContentFieldsV1, "m.room.history_visibility")) > 0 && (forall k string :: kept(unredactableContentFieldsV1, "m.room.history_visibility", k) <==> (k == "history_visibility"))
+//@   ensures C05.content.V1.join_rules: len(get(unredactableContentFieldsV1, "m.room.join_rules")) > 0 && (forall k string :: kept(unredactableContentFieldsV1, "m.room.join_rules", k) <==> (k == "join_rule"))
+//@   ensures C05.content.V1.member: len(get(unredactableContentFieldsV1, "m.room.member")) > 0 && (forall k string :: kept(unredactableContentFieldsV1, "m.room.member", k) <==> (k == "membership"))
+//@   ensures C05.content.V1.power_levels: len(get(unredactableContentFieldsV1, "m.room.power_levels")) > 0 && (forall k string :: kept(unredactableContentFieldsV1, "m.room.power_levels", k) <==> (k == "ban" || k == "events" || k == "events_default" || k == "kick" || k == "redact" || k == "state_default" || k == "users" || k == "users_default"))
+//@   ensures C05.content.V2.types: forall ty string :: (ty in unredactableContentFieldsV2) <==> (ty == "m.room.create" || ty == "m.room.history_visibility" || ty == "m.room.join_rules" || ty == "m.room.member" || ty == "m.room.power_levels")
+//@   ensures C05.content.V2.create: len(get(unredactableContentFieldsV2, "m.room.create")) > 0 && (forall k string :: kept(unredactableContentFieldsV2, "m.room.create", k) <==> (k == "creator"))
+//@   ensures C05.content.V2.history_visibility: len(get(unredactableContentFieldsV2, "m.room.history_visibility")) > 0 && (forall k string :: kept(unredactableContentFieldsV2, "m.room.history_visibility", k) <==> (k == "history_visibility"))
+//@   ensures C05.content.V2.join_rules: len(get(unredactableContentFieldsV2, "m.room.join_rules")) > 0 && (forall k string :: kept(unredactableContentFieldsV2, "m.room.join_rules", k) <==> (k == "join_rule"))
+//@   ensures C05.content.V2.member: len(get(unredactableContentFieldsV2, "m.room.member")) > 0 && (forall k string :: kept(unredactableContentFieldsV2, "m.room.member", k) <==> (k == "membership"))
+//@   ensures C05.content.V2.power_levels: len(get(unredactableContentFieldsV2, "m.room.power_levels")) > 0 && (forall k string :: kept(unredactableContentFieldsV2, "m.room.power_levels", k) <==> (k == "ban" || k == "events" || k == "events_default" || k == "kick" || k == "redact" || k == "state_default" || k == "users" || k == "users_default"))
+//@   ensures C05.content.V3.types: forall ty string :: (ty in unredactableContentFieldsV3) <==> (ty == "m.room.create" || ty == "m.room.history_visibility" || ty == "m.room.join_rules" || ty == "m.room.member" || ty == "m.room.power_levels")
+//@   ensures C05.content.V3.create: len(get(unredactableContentFieldsV3, "m.room.create")) > 0 && (forall k string :: kept(unredactableContentFieldsV3, "m.room.create", k) <==> (k == "creator"))
+//@   ensures C05.content.V3.history_visibility: len(get(unredactableContentFieldsV3, "m.room.history_visibility")) > 0 && (forall k string :: kept(unredactableContentFieldsV3, "m.room.history_visibility", k) <==> (k == "history_visibility"))
+//@   ensures C05.content.V3.join_rules: len(get(unredactableContentFieldsV3, "m.room.join_rules")) > 0 && (forall k string :: kept(unredactableContentFieldsV3, "m.room.join_rules", k) <==> (k == "join_rule" || k == "allow"))
+//@   ensures C05.content.V3.member: len(get(unredactableContentFieldsV3, "m.room.member")) > 0 && (forall k string :: kept(unredactableContentFieldsV3, "m.room.member", k) <==> (k == "membership"))
+//@   ensures C05.content.V3.power_levels: len(get(unredactableContentFieldsV3, "m.room.power_levels")) > 0 && (forall k string :: kept(unredactableContentFieldsV3, "m.room.power_levels", k) <==> (k == "ban" || k == "events" || k == "events_default" || k == "kick" || k == "redact" || k == "state_default" || k == "users" || k == "users_default"))
+//@   ensures C05.content.V4.types: forall ty string :: (ty in unredactableContentFieldsV4) <==> (ty == "m.room.create" || ty == "m.room.history_visibility" || ty == "m.room.join_rules" || ty == "m.room.member" || ty == "m.room.power_levels")
+//@   ensures C05.content.V4.create: len(get(unredactableContentFieldsV4, "m.room.create")) > 0 && (forall k string :: kept(unredactableContentFieldsV4, "m.room.create", k) <==> (k == "creator"))
+//@   ensures C05.content.V4.history_visibility: len(get(unredactableContentFieldsV4, "m.room.history_visibility")) > 0 && (forall k string :: kept(unredactableContentFieldsV4, "m.room.history_visibility", k) <==> (k == "history_visibility"))
+//@   ensures C05.content.V4.join_rules: len(get(unredactableContentFieldsV4, "m.room.join_rules")) > 0 && (forall k string :: kept(unredactableContentFieldsV4, "m.room.join_rules", k) <==> (k == "join_rule" || k == "allow"))
+//@   ensures C05.content.V4.member: len(get(unredactableContentFieldsV4, "m.room.member")) > 0 && (forall k string :: kept(unredactableContentFieldsV4, "m.room.member", k) <==> (k == "membership" || k == "join_authorised_via_users_server"))
+//@   ensures C05.content.V4.power_levels: len(get(unredactableContentFieldsV4, "m.room.power_levels")) > 0 && (forall k string :: kept(unredactableContentFieldsV4, "m.room.power_levels", k) <==> (k == "ban" || k == "events" || k == "events_default" || k == "kick" || k == "redact" || k == "state_default" || k == "users" || k == "users_default"))
+//@   ensures C05.content.V5.types: forall ty string :: (ty in unredactableContentFieldsV5) <==> (ty == "m.room.create" || ty == "m.room.history_visibility" || ty == "m.room.join_rules" || ty == "m.room.member" || ty == "m.room.power_levels" || ty == "m.room.redaction")
+//@   ensures C05.content.V5.create: keepAll(unredactableContentFieldsV5, "m.room.create")
+//@   ensures C05.content.V5.history_visibility: len(get(unredactableContentFieldsV5, "m.room.history_visibility")) > 0 && (forall k string :: kept(unredactableContentFieldsV5, "m.room.history_visibility", k) <==> (k == "history_visibility"))
+//@   ensures C05.content.V5.join_rules: len(get(unredactableContentFieldsV5, "m.room.join_rules")) > 0 && (forall k string :: kept(unredactableContentFieldsV5, "m.room.join_rules", k) <==> (k == "join_rule" || k == "allow"))
+//@   ensures C05.content.V5.member: len(get(unredactableContentFieldsV5, "m.room.member")) > 0 && (forall k string :: kept(unredactableContentFieldsV5, "m.room.member", k) <==> (k == "membership" || k == "join_authorised_via_users_server" || k == "third_party_invite"))
+//@   ensures C05.content.V5.power_levels: len(get(unredactableContentFieldsV5, "m.room.power_levels")) > 0 && (forall k string :: kept(unredactableContentFieldsV5, "m.room.power_levels", k) <==> (k == "ban" || k == "events" || k == "events_default" || k == "kick" || k == "redact" || k == "state_default" || k == "users" || k == "users_default" || k == "invite"))
+//@   ensures C05.content.V5.redaction: len(get(unredactableContentFieldsV5, "m.room.redaction")) > 0 && (forall k string :: kept(unredactableContentFieldsV5, "m.room.redaction", k) <==> (k == "redacts"))
 
 //@ func (RoomVersionImpl).PrivilegedCreators
 //@   property C17
@@ -1306,3 +1340,83 @@ package gomatrixserverlib
 //@ func SignJSON
 //@   trusted
 //@   assigns nothing
+
+// ---------------------------------------------------------------- C05: redaction
+
+//@ func redactEventJSON
+//@   property C05
+//@   requires unredactableEvent != nil
+//@   ensures malformed: !jokAs(old(*unredactableEvent), eventJSON) ==> err != nil
+//@   calls Marshal top-level-keys: setfield(*unredactableEvent, "Content", nil) == setfield(jmerge(old(*unredactableEvent), eventJSON), "Content", nil)
+//@   calls Marshal content-keys: forall k string :: (k in unredactableEvent.Content) <==> (k in jmerge(old(*unredactableEvent), eventJSON).Content && (keepAll(eventTypeToKeepContentFields, unredactableEvent.Type) || kept(eventTypeToKeepContentFields, unredactableEvent.Type, k)))
+//@   calls Marshal content-values: forall k string :: k in unredactableEvent.Content ==> unredactableEvent.Content[k] == get(jmerge(old(*unredactableEvent), eventJSON).Content, k)
+//@   loop 1: invariant 0 <= idx(1) && idx(1) <= len(keepContentFields)
+//@   loop 1: invariant forall k string :: (k in newContent) <==> (k in unredactableEvent.Content && (exists i int :: 0 <= i && i < idx(1) && keepContentFields[i] == k))
+//@   loop 1: invariant forall k string :: k in newContent ==> newContent[k] == get(unredactableEvent.Content, k)
+
+// redaction algorithm of room versions 1-5
+//@ func redactEventJSONV1
+//@   property C05
+//@   calls redactEventJSON[*unredactableEventFieldsV1] algorithm: eventTypeToKeepContentFields == unredactableContentFieldsV1 && unredactableEvent != nil && *unredactableEvent == zero("unredactableEventFieldsV1") && eventJSON == root_eventJSON
+//@   ensures delegated: called("redactEventJSON[*unredactableEventFieldsV1]") && result[0] == ret("redactEventJSON[*unredactableEventFieldsV1]", 0) && result[1] == ret("redactEventJSON[*unredactableEventFieldsV1]", 1)
+//@   ensures top-level-keys: jsonKeys("unredactableEventFieldsV1") == "auth_events,content,depth,event_id,hashes,membership,origin,origin_server_ts,prev_events,prev_state,room_id,sender,signatures,state_key,type"
+
+// redaction algorithm of room versions 6, 7
+//@ func redactEventJSONV2
+//@   property C05
+//@   calls redactEventJSON[*unredactableEventFieldsV1] algorithm: eventTypeToKeepContentFields == unredactableContentFieldsV2 && unredactableEvent != nil && *unredactableEvent == zero("unredactableEventFieldsV1") && eventJSON == root_eventJSON
+//@   ensures delegated: called("redactEventJSON[*unredactableEventFieldsV1]") && result[0] == ret("redactEventJSON[*unredactableEventFieldsV1]", 0) && result[1] == ret("redactEventJSON[*unredactableEventFieldsV1]", 1)
+//@   ensures top-level-keys: jsonKeys("unredactableEventFieldsV1") == "auth_events,content,depth,event_id,hashes,membership,origin,origin_server_ts,prev_events,prev_state,room_id,sender,signatures,state_key,type"
+
+// redaction algorithm of room versions 8
+//@ func redactEventJSONV3
+//@   property C05
+//@   calls redactEventJSON[*unredactableEventFieldsV1] algorithm: eventTypeToKeepContentFields == unredactableContentFieldsV3 && unredactableEvent != nil && *unredactableEvent == zero("unredactableEventFieldsV1") && eventJSON == root_eventJSON
+//@   ensures delegated: called("redactEventJSON[*unredactableEventFieldsV1]") && result[0] == ret("redactEventJSON[*unredactableEventFieldsV1]", 0) && result[1] == ret("redactEventJSON[*unredactableEventFieldsV1]", 1)
+//@   ensures top-level-keys: jsonKeys("unredactableEventFieldsV1") == "auth_events,content,depth,event_id,hashes,membership,origin,origin_server_ts,prev_events,prev_state,room_id,sender,signatures,state_key,type"
+
+// redaction algorithm of room versions 9, 10
+//@ func redactEventJSONV4
+//@   property C05
+//@   calls redactEventJSON[*unredactableEventFieldsV1] algorithm: eventTypeToKeepContentFields == unredactableContentFieldsV4 && unredactableEvent != nil && *unredactableEvent == zero("unredactableEventFieldsV1") && eventJSON == root_eventJSON
+//@   ensures delegated: called("redactEventJSON[*unredactableEventFieldsV1]") && result[0] == ret("redactEventJSON[*unredactableEventFieldsV1]", 0) && result[1] == ret("redactEventJSON[*unredactableEventFieldsV1]", 1)
+//@   ensures top-level-keys: jsonKeys("unredactableEventFieldsV1") == "auth_events,content,depth,event_id,hashes,membership,origin,origin_server_ts,prev_events,prev_state,room_id,sender,signatures,state_key,type"
+
+// redaction algorithm of room versions 11, 12
+//@ func redactEventJSONV5
+//@   property C05
+//@   calls redactEventJSON[*unredactableEventFieldsV2] algorithm: eventTypeToKeepContentFields == unredactableContentFieldsV5 && unredactableEvent != nil && *unredactableEvent == zero("unredactableEventFieldsV2") && eventJSON == root_eventJSON
+//@   ensures delegated: called("redactEventJSON[*unredactableEventFieldsV2]") && result[0] == ret("redactEventJSON[*unredactableEventFieldsV2]", 0) && result[1] == ret("redactEventJSON[*unredactableEventFieldsV2]", 1)
+//@   ensures top-level-keys: jsonKeys("unredactableEventFieldsV2") == "auth_events,content,depth,event_id,hashes,origin_server_ts,prev_events,room_id,sender,signatures,state_key,type"
+
+//@ func (RoomVersionImpl).RedactEventJSON
+//@   property C05
+//@   requires v.redactionAlgorithm != nil
+//@   purecallbacks
+//@   ensures delegates-to-table-entry: result == v.redactionAlgorithm(eventJSON)
+
+// EnforcedCanonicalJSON is C01's subject; C05 only needs that it is a function of its input.
+//@ func EnforcedCanonicalJSON
+//@   trusted
+//@   ensures canonical-form: err == nil ==> string(result[0]) == canonicalOf(string(input))
+//@   assigns nothing
+
+//@ func (*eventV1).Redact
+//@   property C05
+//@   requires e != nil
+//@   panics when !old(e.redacted)
+//@   ensures idempotent: old(e.redacted) ==> *e == old(*e)
+//@   ensures marked: e.redacted && e.roomVersion == old(e.roomVersion)
+//@   ensures redacted-form: !old(e.redacted) ==> (called(RedactEventJSON) && called(EnforcedCanonicalJSON) && e.eventJSON == ret(EnforcedCanonicalJSON, 0))
+//@   calls RedactEventJSON whole-event-under-its-room-version: eventJSON == old(e.eventJSON) && ref(recv) == verImplRef(string(old(e.roomVersion)))
+//@   calls EnforcedCanonicalJSON@root of-redacted-json: input == ret(RedactEventJSON, 0) && roomVersion == old(e.roomVersion)
+
+//@ func (*eventV2).Redact
+//@   property C05
+//@   requires e != nil
+//@   panics when !old(e.redacted)
+//@   ensures idempotent: old(e.redacted) ==> *e == old(*e)
+//@   ensures marked: e.redacted && e.roomVersion == old(e.roomVersion)
+//@   ensures redacted-form: !old(e.redacted) ==> (called(RedactEventJSON) && called(EnforcedCanonicalJSON) && e.eventJSON == ret(EnforcedCanonicalJSON, 0))
+//@   calls RedactEventJSON whole-event-under-its-room-version: eventJSON == old(e.eventJSON) && ref(recv) == verImplRef(string(old(e.roomVersion)))
+//@   calls EnforcedCanonicalJSON@root of-redacted-json: input == ret(RedactEventJSON, 0) && roomVersion == old(e.roomVersion)
